@@ -167,6 +167,9 @@ def run_all(src):
             ctx = Ctx(model, p, "quick")
             mod = importlib.import_module(f"rules.{p.lower()}")
             mod.run(ctx)
+            from sa import contract
+            ctx.rule(f"{p}.api", "API census", 0)
+            contract.check(ctx, p, f"{p}.api", floor=0)
             ctx.verify_floors()
             keys = sorted({f"{r['rule']}|{r['key']}" for r in ctx.violations()})
         except AnalysisError as exc:
